@@ -122,11 +122,32 @@ MUTANTS = [
     M('hs-sorts-r', ['C10'],
       ('pyPRISM/potential/HardSphere.py', "        magnitude = self.funk(r,self.sigma)", "        r.sort()\n        magnitude = self.funk(r,self.sigma)")),
     M('prism-sigma-default-one-diameter', ['C10', 'C16'],
-      (PRISM, "                    U.sigma = self.sys.diameter[t1,t2]", "                    U.sigma = self.sys.diameter[t1]")),
+      (PRISM, "                    U.sigma = self.sys.diameter[t1,t2]\n                # a contact", "                    U.sigma = self.sys.diameter[t1]\n                # a contact")),
     M('prism-no-snap', ['C10'],
       (PRISM, "                U.sigma = self._snap_to_grid(U.sigma)\n", "")),
     M('prism-snap-closure-only-diagonal', ['C10'],
       (PRISM, "self.sys.closure[t1,t2].sigma = self._snap_to_grid(self.sys.diameter[t1,t2])", "self.sys.closure[t1,t2].sigma = self._snap_to_grid(self.sys.diameter[t1,t2]) if t1==t2 else self.sys.diameter[t1,t2]")),
     M('prism-explicit-sigma-overridden', ['C10', 'C16'],
       (PRISM, "                if U.sigma is None:\n                    U.sigma = self.sys.diameter[t1,t2]\n                # a contact", "                if U.sigma is None or t1!=t2:\n                    U.sigma = self.sys.diameter[t1,t2]\n                # a contact")),
+    # ------------------------------------------------------------------ C11 omegas
+    M('gauss-small-k-switch-removed', ['C11'],
+      ('pyPRISM/omega/Gaussian.py', "        small = np.abs(1-E)<1e-4", "        small = np.abs(1-E)<0")),
+    M('fjc-small-k-threshold-tiny', ['C11'],
+      ('pyPRISM/omega/FreelyJointedChain.py', "        small = np.abs(1-E)<1e-4", "        small = np.abs(1-E)<1e-9")),
+    M('gauss-closed-form-E-over-N', ['C11', 'C01'],
+      ('pyPRISM/omega/Gaussian.py', "self.value = (1 - E*E - 2*E/N + (2*E**(N+1))/N)/((1-E)**2.0)", "self.value = (1 - E*E - 2*E/N + (2*E**(N+1))/(N+1e-3))/((1-E)**2.0)")),
+    M('gauss-direct-sum-off-by-one', ['C11'],
+      ('pyPRISM/omega/Gaussian.py', "            t = np.arange(1,N)\n", "            t = np.arange(1,N-1)\n")),
+    M('ring-weight-swapped', ['C11'],
+      ('pyPRISM/omega/GaussianRing.py', "abs(i-j)*(self.length-abs(i-j))/(6.0*self.length)", "abs(i-j)*(self.length-abs(i-j))/(6.0*(self.length-1))")),
+    M('ring-normalises-by-max', ['C11'],
+      ('pyPRISM/omega/GaussianRing.py', "        return self.value", "        if len(k)>3: self.value *= self.length/self.value.max()\n        return self.value")),
+    M('dk-loop-short', ['C11'],
+      ('pyPRISM/omega/DiscreteKoyama.py', "        for i in range(1,self.length):\n            for j in range(i+1,self.length+1):\n                n = abs(i - j)\n                self.value += self.koyama_kernel_fourier(k=k,n=n)", "        for i in range(1,self.length):\n            for j in range(i+1,self.length):\n                n = abs(i - j)\n                self.value += self.koyama_kernel_fourier(k=k,n=n)")),
+    M('dk-r2-sign', ['C11'],
+      ('pyPRISM/omega/DiscreteKoyama.py', "r2 = n*l*l*((1-self.cos1)/(1+self.cos1) + 2*self.cos1/n", "r2 = n*l*l*((1-self.cos1)/(1+self.cos1) - 2*self.cos1/n")),
+    M('dk-accepts-small-lp', ['C11'],
+      ('pyPRISM/omega/DiscreteKoyama.py', "        if self.lp<self.lp_min:", "        if self.lp<0.9*self.lp_min:")),
+    M('singlesite-scalar-broadcast', ['C11'],
+      ('pyPRISM/omega/SingleSite.py', "        self.value = np.ones_like(k)", "        self.value = np.ones_like(k)*(1.0 if len(k)!=1 else 1.0+1e-6)")),
 ]
